@@ -1,3 +1,6 @@
 SPECIFICATION Spec
+CONSTANTS
+ EarlyMs = 20
+ DueMs = 300
 POSTCONDITION Accepted
 CHECK_DEADLOCK FALSE
